@@ -117,6 +117,16 @@ structure Prog where
   env : Env
   iters : List (Nat × Iter)
 
+/-- run `f` on the store `n` layers below the top (a sibling writing to a shared parent) -/
+def Store.under (s : Store) (n : Nat) (f : Store → Env → M (Store × Env)) (e : Env) : M (Store × Env) :=
+  match n, s with
+  | 0, s => f s e
+  | _ + 1, .mem m => f (.mem m) e
+  | n + 1, .cache c p => do let (p', e') ← p.under n f e; .ok (.cache c p', e')
+  | n + 1, .pfx pre p => do let (p', e') ← p.under n f e; .ok (.pfx pre p', e')
+  | n + 1, .gas p => do let (p', e') ← p.under n f e; .ok (.gas p', e')
+  | n + 1, .trace p => do let (p', e') ← p.under n f e; .ok (.trace p', e')
+
 def Store.base : Store → Items
   | .mem m => m
   | .cache _ p => p.base
